@@ -631,6 +631,28 @@ func vEnumerateM(k *vManifestKit, maxLen int, visit func(seq []vMEvent)) {
 	rec(nil)
 }
 
+// vMDirectedVersionSeqs: version updates on both sides of the chain fetch,
+// then a submission (longer than the enumeration bound of the quick tier).
+func vMDirectedVersionSeqs() [][]vMEvent {
+	var seqs [][]vMEvent
+	for _, a := range []vMEvent{mV2, mV3} {
+		for _, b := range []vMEvent{mV2, mV3} {
+			for _, sub := range []vMEvent{mM1, mM2, mM3} {
+				seqs = append(seqs,
+					[]vMEvent{a, mL, mFp, b, sub},
+					[]vMEvent{mL, a, mFp, b, sub},
+					[]vMEvent{mL, a, mFm, mL, mFp, b, sub},
+					[]vMEvent{mL, mM1, a, mFp, b, sub},
+					[]vMEvent{a, b, mL, mFp, sub},
+					[]vMEvent{mL, mFp, a, b, sub},
+					[]vMEvent{mL, mFp, a, sub, b, sub},
+				)
+			}
+		}
+	}
+	return seqs
+}
+
 func vMgrHook(point string, args ...interface{}) {
 	if point == "manifest.mgr.loop" {
 		vMgrRouter.Handler("manifest.mgr.loop")(point, args...)
@@ -727,6 +749,7 @@ func TestVerif_C20(t *testing.T) {
 	var seqs [][]vMEvent
 	vEnumerateM(k, maxLen, func(seq []vMEvent) { seqs = append(seqs, append([]vMEvent(nil), seq...)) })
 	res.Extra("enumeration", fmt.Sprintf("all enabled sequences of length 1..%d over 10 events: %d (complete)", maxLen, len(seqs)))
+	seqs = append(seqs, vMDirectedVersionSeqs()...)
 	vs.Parallel(len(seqs), runtime.NumCPU(), func(i int) { judge(seqs[i]) })
 	// longer random sequences
 	seed := vs.Seed()
